@@ -95,13 +95,49 @@ def generate(tier, seed):
         for i in range(0, len(steps), 60):
             cases.append(case("eng", sp, adapter_M(lines), "-", steps[i:i + 60]))
             dist["enforce_cases"] += 1
+    # malformed STORED rules (a value too many / too few) at every position among well-formed ones: a request that
+    # reaches one gets an error, never a grant; plain and context-qualified
+    dist["malformed_rule_cases"] = 0
+    for name in ("acl", "rbac", "rbac_PR", "acl_DO"):
+        d = kinds(("AO", "PR", "DO"))[name]
+        hasg = bool(d["g"])
+        eft = "eft" in d["p"]
+        good = [["alice", "data1", "read"] + (["allow"] if eft else []), ["bob", "data1", "read"] + (["deny"] if eft else []),
+                ["alice", "data2", "read"] + (["allow"] if eft else [])]
+        bads = [["alice", "data1", "read"] + (["allow"] if eft else []) + ["extra"], ["bob", "data1"], ["alice", "data2", "read", "allow", "x", "y"],
+                ["carol"], ["alice", "data1", "read"][: (3 if eft else 2)]]
+        reqs = [[s_, o, "read"] for s_ in ("alice", "bob", "carol") for o in ("data1", "data2")]
+        for bad in bads:
+            for pos in range(3):
+                rules = [list(r) for r in good[:2]]
+                rules.insert(pos, bad)
+                for copies in (("",), ("", "2")):
+                    sp = spec_of(d, copies)
+                    lines = []
+                    for k in copies:
+                        lines += [["p", "p" + k] + r for r in rules]
+                    if hasg:
+                        lines.append(["g", "g", "carol", "alice"])
+                    steps = [Q_e(r) for r in reqs]
+                    if len(copies) > 1:
+                        steps += [Q_ec("2", r) for r in reqs]
+                    for ak in ("M", "F"):
+                        ad = adapter_M(lines) if ak == "M" else adapter_F([l[1:] for l in lines])
+                        cases.append(case("eng", sp, ad, "-", steps))
+                        dist["malformed_rule_cases"] += 1
+                # the malformed rule added at run time
+                sp = spec_of(d)
+                steps = [A("p", "p", r) for r in rules] + [Q_e(r) for r in reqs]
+                cases.append(case("eng", sp, adapter_M([]), "-", steps))
+                dist["malformed_rule_cases"] += 1
     return {
         "cases": cases,
         "exhaustive": False,
         "rule": ("the %d strings of length <= 3 over {a / * : { } ? . \\\" space é € 😀} (%s) plus seeded random longer ones: as key of key_match2/3/4/5, "
                  "key_get2/3 against grammar patterns, of key_match/key_get against text patterns, of regex_match; and as request values at every arity "
                  "0..6 and at the right arity against keyMatch / keyMatch2+regexMatch / RBAC / domain-priority / ABAC / `in` models holding multi-byte rules. "
-                 "Every call under catch_unwind and a watchdog. non-trivial = a matcher matched or a request was granted"
+                 "Malformed stored rules (one value too many / too few, loaded or added at run time) at every position among well-formed ones, plain and "
+                 "context-qualified. Every call under catch_unwind and a watchdog. non-trivial = a matcher matched or a request was granted"
                  % (len(C), "all of them" if tier != "quick" else "a seeded sample of 500")),
         "distribution": dist,
     }
